@@ -337,7 +337,9 @@ class World:
                     if not tt:
                         r.violation('C13/parameter-never-polled', f'{name}:{pn}', case)
                         return
-                    bound = (1.5 * m['slowinterval'] + (npolled + 1) * S) * 1.01 + 1e-3
+                    # (one more sweep than the first calibration: a thread that is catching up after a fast-poll phase of another
+                    # module reached 1.01 of the old bound once in 48 000 runs of the thorough tier)
+                    bound = (1.5 * m['slowinterval'] + (npolled + 2) * S) * 1.01 + 1e-3
                     for a, b in zip(tt, tt[1:] + [t_end]):
                         r.count('slow_gaps_checked')
                         r.maximum('worst_slow_gap_ratio', round((b - a) / bound, 4))
